@@ -1,17 +1,13 @@
 package main
 
 import (
-	"context"
 	"flag"
 	"fmt"
 	"go/types"
 	"os"
-	"os/exec"
 	"path/filepath"
 	"sort"
 	"strings"
-	"sync"
-	"time"
 
 	"golang.org/x/tools/go/packages"
 	"golang.org/x/tools/go/ssa"
@@ -19,11 +15,14 @@ import (
 )
 
 type Engine struct {
-	prog  *ssa.Program
-	pkgs  map[string]*ssa.Package
-	tpkgs map[string]*types.Package
-	spec  *Spec
-	fns   map[string]*ssa.Function // pkg::key
+	repo   string
+	prog   *ssa.Program
+	pkgs   map[string]*ssa.Package
+	tpkgs  map[string]*types.Package
+	ppkgs  []*packages.Package
+	spec   *Spec
+	fns    map[string]*ssa.Function // pkg::key
+	srcTxt map[string][]string
 }
 
 func (e *Engine) typesPkg(path string) *types.Package {
@@ -33,8 +32,13 @@ func (e *Engine) typesPkg(path string) *types.Package {
 	return nil
 }
 
+func goEnv() []string {
+	return append(os.Environ(), "GOFLAGS=-mod=mod", "GOPROXY=off", "GOSUMDB=off", "GOTOOLCHAIN=local")
+}
+
+// load type-checks the repository's current working tree with the verif tag and builds SSA.
 func load(dir string) (*Engine, error) {
-	cfg := &packages.Config{Mode: packages.LoadAllSyntax, Dir: dir, BuildFlags: []string{"-tags=verif"}, Env: append(os.Environ(), "GOFLAGS=-mod=mod", "GOPROXY=off", "GOSUMDB=off")}
+	cfg := &packages.Config{Mode: packages.LoadAllSyntax, Dir: dir, BuildFlags: []string{"-tags=verif"}, Env: goEnv()}
 	pkgs, err := packages.Load(cfg, "./...")
 	if err != nil {
 		return nil, err
@@ -44,7 +48,7 @@ func load(dir string) (*Engine, error) {
 	}
 	prog, _ := ssautil.AllPackages(pkgs, ssa.GlobalDebug)
 	prog.Build()
-	e := &Engine{prog: prog, pkgs: map[string]*ssa.Package{}, tpkgs: map[string]*types.Package{}, fns: map[string]*ssa.Function{}}
+	e := &Engine{repo: dir, prog: prog, pkgs: map[string]*ssa.Package{}, tpkgs: map[string]*types.Package{}, fns: map[string]*ssa.Function{}, ppkgs: pkgs, srcTxt: map[string][]string{}}
 	for _, p := range prog.AllPackages() {
 		e.pkgs[p.Pkg.Path()] = p
 		e.tpkgs[p.Pkg.Path()] = p.Pkg
@@ -58,288 +62,126 @@ func load(dir string) (*Engine, error) {
 	return e, nil
 }
 
-type result struct {
-	o      *Obl
-	status string // unsat sat unknown timeout error
-	solver string
-	secs   float64
-	model  string
-	file   string
-}
-
-func (v *fnVC) emit(o *Obl, restrict T) string {
-	var sb strings.Builder
-	sb.WriteString("(set-option :produce-models true)\n")
-	sb.WriteString("; obligation " + o.Name + "\n; " + o.Text + "\n; " + o.Pos + "\n")
-	sb.WriteString(v.P.text())
-	sb.WriteString("\n")
-	for _, f := range v.facts {
-		if f.blk == o.blk {
-			if f.idx >= o.idx {
-				continue
-			}
-		} else if !v.anc[o.blk][f.blk] {
+// loadContracts gathers the //@ contracts: trusted external contracts from <verif>/contracts/*.spec
+// and the contracts kept inside the repository in *_verif.go files (build tag verif).
+func (e *Engine) loadContracts(verifDir string, extra string) error {
+	sp := newSpec()
+	files, _ := filepath.Glob(filepath.Join(verifDir, "contracts", "*.spec"))
+	sort.Strings(files)
+	for _, f := range files {
+		if err := sp.loadFile(f, ""); err != nil {
+			return err
+		}
+	}
+	for _, p := range e.ppkgs {
+		if !strings.HasPrefix(p.PkgPath, modPrefix) {
 			continue
 		}
-		sb.WriteString(f.text)
-		sb.WriteString("\n")
+		fs := append([]string{}, p.GoFiles...)
+		sort.Strings(fs)
+		for _, f := range fs {
+			if strings.HasSuffix(f, "_verif.go") {
+				if err := sp.loadFile(f, p.PkgPath); err != nil {
+					return err
+				}
+			}
+		}
 	}
-	if restrict != "" {
-		sb.WriteString("(assert " + restrict + ")\n")
+	if extra != "" {
+		if err := sp.loadFile(extra, ""); err != nil {
+			return err
+		}
 	}
-	sb.WriteString("(assert " + o.Reach + ")\n")
-	sb.WriteString("(assert (not " + o.Goal + "))\n")
-	sb.WriteString("(check-sat)\n")
-	if len(o.Inputs) > 0 {
-		sb.WriteString("(get-value (" + strings.Join(o.Inputs, " ") + "))\n")
-	}
-	return sb.String()
+	e.spec = sp
+	return nil
 }
 
-var solvers = [][]string{{"z3-new", "-T:%d"}, {"z3", "-T:%d"}, {"cvc5", "--tlimit=%d000"}}
+// srcLine returns the trimmed source line at a position (used to name run-time-error obligations
+// by what the programmer wrote, not by SSA temporaries).
+func (e *Engine) srcLine(file string, line int) string {
+	ls, ok := e.srcTxt[file]
+	if !ok {
+		data, err := os.ReadFile(file)
+		if err == nil {
+			ls = strings.Split(string(data), "\n")
+		}
+		e.srcTxt[file] = ls
+	}
+	if line-1 < len(ls) && line >= 1 {
+		return strings.TrimSpace(ls[line-1])
+	}
+	return ""
+}
 
-func solve(file string, timeout int, only string) (string, string, float64, string) {
-	type ans struct {
-		status, solver, out string
-		secs           float64
-	}
-	ctx, cancel := context.WithCancel(context.Background())
-	defer cancel()
-	ch := make(chan ans, len(solvers))
-	n := 0
-	for _, s := range solvers {
-		if only != "" && s[0] != only {
-			continue
-		}
-		n++
-		go func(s []string) {
-			t0 := time.Now()
-			args := []string{fmt.Sprintf(s[1], timeout)}
-			if s[0] == "cvc5" {
-				args = append(args, "--produce-models")
-			}
-			args = append(args, file)
-			cmd := exec.CommandContext(ctx, s[0], args...)
-			out, _ := cmd.CombinedOutput()
-			line := strings.TrimSpace(strings.SplitN(string(out), "\n", 2)[0])
-			st := "unknown"
-			switch {
-			case line == "unsat":
-				st = "unsat"
-			case line == "sat":
-				st = "sat"
-			case strings.HasPrefix(line, "(error") || strings.Contains(line, "rror"):
-				st = "error"
-			case line == "timeout":
-				st = "timeout"
-			}
-			ch <- ans{st, s[0], string(out), time.Since(t0).Seconds()}
-		}(s)
-	}
-	var last ans
-	for i := 0; i < n; i++ {
-		a := <-ch
-		if a.status == "unsat" || a.status == "sat" {
-			return a.status, a.solver, a.secs, a.out
-		}
-		if last.status == "" || a.status == "error" {
-			last = a
-		}
-	}
-	return last.status, last.solver, last.secs, last.out
+func usage() {
+	fmt.Fprintln(os.Stderr, `usage:
+  ucfgvc check <property> [--tier quick|thorough] [--repo /repo] [--verif /verif]
+  ucfgvc run [-fn substr] [-prop id] [-kinds k1,k2] [-timeout s] [-v] [-keep dir] [-replay]
+  ucfgvc replay <replay.json>
+  ucfgvc list`)
+	os.Exit(2)
 }
 
 func main() {
-	dir := flag.String("repo", "/repo", "repository")
-	specFile := flag.String("spec", "contracts.spec", "contract file")
-	keep := flag.String("keep", "", "directory to keep smt files")
-	only := flag.String("fn", "", "only functions whose key contains this")
-	kinds := flag.String("kinds", "", "comma list of obligation kind prefixes")
-	timeout := flag.Int("timeout", 10, "seconds")
-	solver := flag.String("solver", "", "single solver")
-	verbose := flag.Bool("v", false, "verbose")
-	doReplay := flag.Bool("replay", false, "replay models of failed obligations against the real code")
-	flag.Parse()
+	if len(os.Args) < 2 {
+		usage()
+	}
+	switch os.Args[1] {
+	case "check":
+		os.Exit(cmdCheck(os.Args[2:]))
+	case "run":
+		os.Exit(cmdRun(os.Args[2:]))
+	case "replay":
+		os.Exit(cmdReplay(os.Args[2:]))
+	case "list":
+		os.Exit(cmdList(os.Args[2:]))
+	default:
+		usage()
+	}
+}
 
-	t0 := time.Now()
-	e, err := load(*dir)
+func cmdList(args []string) int {
+	fs := flag.NewFlagSet("list", flag.ExitOnError)
+	repo := fs.String("repo", "/repo", "repository")
+	verif := fs.String("verif", "/verif", "verif dir")
+	fs.Parse(args)
+	e, err := load(*repo)
 	if err != nil {
 		fmt.Println("load:", err)
-		os.Exit(2)
+		return 2
 	}
-	sp, err := loadSpec(*specFile)
-	if err != nil {
-		fmt.Println("spec:", err)
-		os.Exit(2)
+	if err := e.loadContracts(*verif, ""); err != nil {
+		fmt.Println("contracts:", err)
+		return 2
 	}
-	e.spec = sp
-	fmt.Printf("loaded in %.1fs; %d contracts\n", time.Since(t0).Seconds(), len(sp.Contracts))
-
-	outDir := *keep
-	if outDir == "" {
-		outDir, _ = os.MkdirTemp("", "ucfgvc")
-		defer os.RemoveAll(outDir)
-	} else {
-		os.MkdirAll(outDir, 0o755)
-	}
-	var keys []string
-	for k, c := range sp.Contracts {
+	byProp := map[string][]string{}
+	var trusted []string
+	for k, c := range e.spec.Contracts {
 		if c.Extern || c.Trusted || strings.HasPrefix(c.Key, "iface:") {
+			if c.Trusted {
+				trusted = append(trusted, k)
+			}
 			continue
 		}
-		if *only != "" && !strings.Contains(k, *only) {
-			continue
+		for _, p := range c.Props {
+			byProp[p] = append(byProp[p], c.Key)
 		}
-		keys = append(keys, k)
-	}
-	sort.Strings(keys)
-
-	type job struct {
-		o    *Obl
-		file string
-		v    *fnVC
-	}
-	var jobs []job
-	coverDone := map[string]bool{}
-	for _, k := range keys {
-		fn := e.fns[k]
-		if fn == nil {
-			fmt.Println("TOOL-ERROR: contract for unknown function", k)
-			os.Exit(2)
-		}
-		con := sp.Contracts[k]
-		v := &fnVC{e: e, fn: fn, con: con, P: newPrelude(con.Mode == "bv"), vals: map[ssa.Value]T{}, reach: map[*ssa.BasicBlock]T{}, memOut: map[*ssa.BasicBlock]map[string]T{}, cur: map[string]T{}, memSrt: map[string]string{}, oblCnt: map[string]int{}, tuples: map[ssa.Value][]T{}, usedContracts: map[string]bool{}, grounded: map[string]bool{}, closures: map[ssa.Value]*ssa.MakeClosure{}, rangeOf: map[*ssa.Range]ssa.Value{}}
-		func() {
-			defer func() {
-				if r := recover(); r != nil {
-					fmt.Printf("TOOL-ERROR in %s: %v\n", k, r)
-					if *verbose {
-						panic(r)
-					}
-				}
-			}()
-			v.run()
-		}()
-		if len(v.unsupported) > 0 {
-			fmt.Printf("  [%s] unsupported constructs: %v\n", con.Key, uniq(v.unsupported))
-		}
-		for _, o := range v.obls {
-			if *kinds != "" {
-				ok := false
-				for _, kd := range strings.Split(*kinds, ",") {
-					if strings.HasPrefix(o.Kind, kd) {
-						ok = true
-					}
-				}
-				if !ok {
-					continue
-				}
-			}
-			if o.Reach == "" {
-				continue
-			}
-			file := filepath.Join(outDir, fmt.Sprintf("%s_%03d.smt2", sanitize(con.Key), len(jobs)))
-			os.WriteFile(file, []byte(v.emit(o, "")), 0o644)
-			jobs = append(jobs, job{o, file, v})
-			if strings.HasPrefix(o.Kind, "post.") && !coverDone[fmt.Sprint(con.Key, o.blk.Index)] {
-				// vacuity guard: the quantifier-free fragment of the path facts must be satisfiable
-				coverDone[fmt.Sprint(con.Key, o.blk.Index)] = true
-				co := &Obl{Name: fmt.Sprintf("%s#cover.return[block %d]", con.Key, o.blk.Index), Kind: "cover", Goal: "false", Reach: o.Reach, blk: o.blk, idx: o.idx}
-				var sb strings.Builder
-				for _, l := range strings.Split(v.emit(co, ""), "\n") {
-					if strings.Contains(l, "forall") || strings.HasPrefix(l, "(get-value") {
-						continue
-					}
-					sb.WriteString(l + "\n")
-				}
-				cfile := filepath.Join(outDir, fmt.Sprintf("%s_%03d_cover.smt2", sanitize(con.Key), len(jobs)))
-				os.WriteFile(cfile, []byte(sb.String()), 0o644)
-				jobs = append(jobs, job{co, cfile, v})
-			}
+		if len(c.Props) == 0 {
+			byProp["(none)"] = append(byProp["(none)"], c.Key)
 		}
 	}
-	jobOf := map[*Obl]*fnVC{}
-	for _, j := range jobs {
-		jobOf[j.o] = j.v
+	var ps []string
+	for p := range byProp {
+		ps = append(ps, p)
 	}
-	results := make([]result, len(jobs))
-	var wg sync.WaitGroup
-	sem := make(chan struct{}, 14)
-	for i, j := range jobs {
-		wg.Add(1)
-		go func(i int, j job) {
-			defer wg.Done()
-			sem <- struct{}{}
-			defer func() { <-sem }()
-			st, sv, secs, out := solve(j.file, *timeout, *solver)
-			results[i] = result{o: j.o, status: st, solver: sv, secs: secs, model: out, file: j.file}
-		}(i, j)
+	sort.Strings(ps)
+	for _, p := range ps {
+		sort.Strings(byProp[p])
+		fmt.Printf("%s (%d): %s\n", p, len(byProp[p]), strings.Join(byProp[p], ", "))
 	}
-	wg.Wait()
-	counts := map[string]int{}
-	var total float64
-	for i := range results {
-		if results[i].o.Kind == "cover" {
-			switch results[i].status {
-			case "sat":
-				results[i].status = "unsat" // cover satisfied: report as discharged
-			case "unsat":
-				results[i].status = "VACUOUS"
-			}
-		}
-	}
-	for _, r := range results {
-		counts[r.status]++
-		total += r.secs
-		if r.status != "unsat" || *verbose {
-			fmt.Printf("%-8s %-7s %5.2fs %s\n", r.status, r.solver, r.secs, r.o.Name)
-			if r.status == "sat" {
-				lines := strings.Split(strings.TrimSpace(r.model), "\n")
-				if len(lines) > 1 {
-					ms := strings.Join(lines[1:], " ")
-					if len(ms) > 300 {
-						ms = ms[:300] + " ..."
-					}
-					fmt.Printf("         model: %s\n", ms)
-				}
-			}
-			if r.status == "error" {
-				fmt.Printf("         %s\n", firstLines(r.model, 3))
-			}
-			if *doReplay && (r.status == "sat" || r.status == "unknown") && r.o.Kind != "cover" {
-				model := r.model
-				how := "model"
-				if r.status == "unknown" {
-					// candidate model from the quantifier-free fragment; trusted only if the replay reproduces
-					var sb strings.Builder
-					data, _ := os.ReadFile(r.file)
-					for _, l := range strings.Split(string(data), "\n") {
-						if !strings.Contains(l, "forall") {
-							sb.WriteString(l + "\n")
-						}
-					}
-					qf := r.file + ".qf.smt2"
-					os.WriteFile(qf, []byte(sb.String()), 0o644)
-					st, _, _, out := solve(qf, *timeout, "z3-new")
-					if st != "sat" {
-						fmt.Printf("         replay: no candidate model (%s) -> no-failing-input-found\n", st)
-						continue
-					}
-					model, how = out, "candidate model (quantifier-free fragment)"
-				}
-				vals := parseGetValue(model)
-				jv := jobOf[r.o]
-				content, ok := buildReplay(jv.fn, jv.inputs, vals, r.o)
-				if !ok {
-					fmt.Printf("         replay: inputs not constructible -> no-failing-input-found\n")
-					continue
-				}
-				res := runReplay(*dir, jv.fn, content, filepath.Join(outDir, "replay"))
-				fmt.Printf("         replay (%s): %s\n", how, res)
-			}
-		}
-	}
-	fmt.Printf("obligations=%d %v solver-time=%.1fs wall=%.1fs\n", len(results), counts, total, time.Since(t0).Seconds())
+	sort.Strings(trusted)
+	fmt.Printf("trusted (%d): %s\n", len(trusted), strings.Join(trusted, ", "))
+	return 0
 }
 
 func firstLines(s string, n int) string {
